@@ -253,18 +253,19 @@ Definition ordinary_agent (rfc ctl : bool) (ok : nat -> bool) (ss : list stream)
 
 (** ** priv_mark_pair_nominated (stream, component, localcand, remotecand), with conn_check_update_selected_pair.
     The loop walks the links of stream->conncheck_list while its body may delete links (for_ready -> prune).
-    [None] = the link under the loop cursor itself was deleted and freed: "i = i->next" reads freed memory. *)
+    [None] = undefined behaviour of the C code: the link under the loop cursor itself was deleted and freed ("i = i->next" reads freed
+    memory), or the discovered_pair pointer followed by the body dangles (its pair was deleted by an earlier pruning). *)
 Fixpoint after_id (id : Z) (l : list pair) : option (list pair) :=
   match l with
   | [] => None
   | p :: r => if p_id p =? id then Some r else after_id id r
   end.
 Definition mstate := (bool * list pair * comp * list Z)%type.
-Definition mark_body (rfc : bool) (p : pair) (st : mstate) : mstate :=
+Definition mark_body (rfc : bool) (p : pair) (st : mstate) : option mstate :=
   let '(res, L, c, out) := st in
   let tid := if is_state Succeeded p && negb (p_disc p =? 0) then p_disc p else p_id p in
   match find_id tid L with
-  | None => st
+  | None => None          (* pair->discovered_pair points to a pair that was deleted and freed: dangling pointer dereferenced *)
   | Some t0 =>
       let hit := rfc && (p_trig t0 || is_state InProgress t0) in
       let L1 := if hit then update_id tid (fun q => set_mnora q true) L else L in
@@ -277,8 +278,8 @@ Definition mark_body (rfc : bool) (p : pair) (st : mstate) : mstate :=
           let '(cc, oc) := if c_state cb =? st_CONNECTING then signal cb st_CONNECTED else (cb, []) in
           (cc, oa ++ oc)
         else (c, []) in
-      if nom2 then let '(L3, c3, o3) := for_ready L2 c2 in (true, L3, c3, out ++ o2 ++ o3)
-      else (res || hit, L2, c2, out ++ o2)
+      if nom2 then let '(L3, c3, o3) := for_ready L2 c2 in Some (true, L3, c3, out ++ o2 ++ o3)
+      else Some (res || hit, L2, c2, out ++ o2)
   end.
 Fixpoint mark_loop (rfc : bool) (lc rc : Z) (fuel : nat) (rest : list pair) (st : mstate) : option mstate :=
   match fuel with
@@ -288,10 +289,13 @@ Fixpoint mark_loop (rfc : bool) (lc rc : Z) (fuel : nat) (rest : list pair) (st 
       | [] => Some st
       | p :: rest' =>
           if (p_local p =? lc) && (p_remote p =? rc) then
-            let st' := mark_body rfc p st in
-            match after_id (p_id p) (snd (fst (fst st'))) with
+            match mark_body rfc p st with
             | None => None
-            | Some rest'' => mark_loop rfc lc rc f rest'' st'
+            | Some st' =>
+                match after_id (p_id p) (snd (fst (fst st'))) with
+                | None => None          (* the link under the cursor was deleted and freed: "i = i->next" reads it *)
+                | Some rest'' => mark_loop rfc lc rc f rest'' st'
+                end
             end
           else mark_loop rfc lc rc f rest' st
       end
